@@ -60,3 +60,15 @@ func (a *StreamSvc) Push(s *SS) error {
 		}
 	}
 }
+
+// CloseSelf: a handler that closes its own stream after the first message (user code may call
+// Stream.Close from the handler's goroutine) and returns when told to.
+func (a *StreamSvc) CloseSelf(s *SS) error {
+	w := a.w
+	w.streamsIn++
+	defer func() { w.streamsEx++ }()
+	var in []byte
+	err := s.st.ReadMessage(nil, &in)
+	s.st.Close()
+	return err
+}
